@@ -37,7 +37,7 @@ func TestVerifN2NGiveUp(t *testing.T) {
 	defer out.Close()
 	*requireJSONField, *requireJSONValue = "", ""
 	whitelistJSONFields = whitelistJSONFields[:0]
-	for ci, attempts := range []uint16{1, 5, 6, 9} {
+	for ci, attempts := range vfGiveUpAttempts("nsq_to_nsq", []uint16{1, 5, 6, 9}) {
 		src := vfNewStubNsqd()
 		dst := vfNewStubNsqd()
 		// --- as in main()
